@@ -14,7 +14,18 @@ def mk_case(cid, cmds, scripts=(), lim=U24_MAX, chunks=None, user=b"jon", auth="
     """cmds: list of (kind, payload[, seq]).  The whole client stream is framed with `lim`."""
     c = Case(cid, lim=lim, tls=tls, auth=auth, dinit=dinit)
     c.wcap = wcap
-    hs_payload = hs if hs is not None else hs41(user)
+    if hs is not None:
+        hs_payload = hs
+    else:
+        # every conversation announces a different client capability mask (deterministic in the case id): the
+        # server's replies and dispatch must not depend on bits it never advertised (CLIENT_DEPRECATE_EOF 2^24,
+        # SESSION_TRACK, MULTI_STATEMENTS, ...); CLIENT_SSL stays clear, CLIENT_PROTOCOL_41 set
+        import zlib
+        h = zlib.crc32(cid.encode())
+        caps = DEFAULT_CAPS if h % 3 == 0 else ((DEFAULT_CAPS ^ (h * 2654435761 & 0xffffffff)) | 0x200) & ~0x800 & 0xffffffff
+        if h % 5 == 1:
+            caps |= 1 << 24
+        hs_payload = hs41(user, caps=caps)
     stream = frame(hs_payload, hs_seq, lim)
     meta = []
     for item in cmds:
